@@ -406,10 +406,20 @@ def chk_cdf_pdf(case):
             tol = 1e-9 * (np.abs(r) + 1 / l) + 4e-16 / np.maximum(pdf, 1e-300)
             if np.any(np.abs(back - r) > tol):
                 bad["ppf_of_cdf"] = [float(x) for x in np.abs(back - r) * l]
-            uu = np.array(case["u"], dtype=float)
-            fw = m.spectral_rad_cdf(m.spectral_rad_ppf(uu))
-            if np.any(np.abs(fw - uu) > 1e-12):
-                bad["cdf_of_ppf"] = [float(x) for x in np.abs(fw - uu)]
+            uu = np.array(list(case["u"]) + [10.0 ** -j for j in range(1, 13)] + [1 - 10.0 ** -j for j in range(1, 13)], dtype=float)
+            if name == "Exponential" and d == 2:
+                # the code's documented mask: |1 - u| <= 1e-8 -> inf (modelled; C04_ppf_inverts_cdf_exponential_2d excludes it)
+                masked = uu[1 - uu <= 1e-8]
+                if masked.size and not np.all(np.isinf(m.spectral_rad_ppf(masked))):
+                    bad["ppf_mask"] = [float(x) for x in masked]
+                uu = uu[1 - uu > 1.0001e-8]
+            pp = m.spectral_rad_ppf(uu)
+            fw = m.spectral_rad_cdf(pp)
+            tol_u = 1e-9 * np.minimum(uu, 1 - uu) + 1e-15      # relative to the distance from the nearer end of [0, 1]
+            if np.any(~np.isfinite(pp)) or np.any(np.abs(fw - uu) > tol_u):
+                worst = int(np.argmax(np.where(np.isfinite(pp), np.abs(fw - uu) / tol_u, np.inf)))
+                bad["cdf_of_ppf"] = dict(u=float(uu[worst]), one_minus_u=float(1 - uu[worst]), ppf=float(pp[worst]), cdf_of_ppf=float(fw[worst]),
+                                         n_failing=int(np.sum(~np.isfinite(pp) | (np.abs(fw - uu) > tol_u))))
             p0 = float(m.spectral_rad_ppf(np.array([0.0]))[0])
             if p0 != 0.0:
                 bad["ppf(0)"] = p0
@@ -634,7 +644,8 @@ def correspondence(ctx, rng, drv):
                         ctx.count(("corr", name, d, "cdf", rs, round(x * l, 6)), hist=dict(corr_fn="cdf", cls=name, dim=d, rescale=rs_kind(rs)))
                         if not ok:
                             report_corr(ctx, case, det)
-                    for u in [0.0, 1e-9, 0.1, 0.5, 0.9, 1 - 1e-4, 1 - 5e-9, 1.0, float(rng.random())]:
+                    # both tails geometrically (u = 10^-j and 1 - 10^-j, j = 1..12): guards / masks next to 0 and 1 have a width
+                    for u in [0.0, 0.5, 1 - 5e-9, 1.0, float(rng.random())] + [10.0 ** -j for j in range(1, 13)] + [1 - 10.0 ** -j for j in range(1, 13)]:
                         case = dict(kind="corr", cls=name, dim=d, len_scale=ls, rescale=rs, params=params, fn="ppf", x=u)
                         ok, det = chk_corr(drv, case)
                         ctx.count(("corr", name, d, "ppf", rs, round(u, 9)), hist=dict(corr_fn="ppf", cls=name, dim=d, rescale=rs_kind(rs)))
@@ -820,12 +831,12 @@ def run(ctx):
         "Gauss-Jacobi for the JBessel end-point singularity",
     ]
     ctx.not_proved = [
-        "Fourier pair for every model except Exponential d=1 (Gaussian needs the Gaussian integral / differentiation under the integral; "
+        "Fourier pair for every model except Exponential d=1 and d=3 (radial form) (Gaussian needs the Gaussian integral / differentiation under the integral; "
         "Matern, Integral, HyperSpherical, JBessel, TPL* need Bessel / hypergeometric / incomplete-gamma transforms): probes only",
         "accuracy of the default numerical spectrum (hankel.SymmetricFourierTransform): probes only, not modelled",
         "erf -> 1 at infinity (the Gaussian integral) is a hypothesis of the Gaussian d=1,3 limit / normalisation theorems",
-        "cdf' = pdf, limits, normalisation are proved for Gaussian and Exponential (the classes that offer a cdf); normalisation of the other "
-        "radial pdfs: probes only",
+        "cdf' = pdf, limits, normalisation are proved for Gaussian and Exponential (the classes that offer a cdf) and normalisation for "
+        "Matern d=2 (every nu); normalisation of the other radial pdfs: probes only",
         "floating-point rounding; the special functions themselves",
     ]
     ctx.tie.update({"rad_fac; Gaussian / Exponential spectral_density, spectral_rad_cdf, spectral_rad_ppf; Matern, Integral, HyperSpherical, "
